@@ -135,11 +135,17 @@ def run(coro_fn, *args, start: float = 1000.0, patch_clock: bool = True, wall_ti
     def on_alarm(signum, frame):
         raise WallClockGuard('wall-clock guard: case took too long')
 
-    old = None
+    # The budget is CPU time of this process (ITIMER_PROF): on a loaded machine a case that needs 2 s of CPU can take a
+    # minute of wall time, and a guard that fires then turns load into a false alarm. A busy loop burns CPU and is still
+    # caught; a loop that BLOCKS (nothing ready, no timer: select() for ever) burns none — the wall-clock timer stays as a
+    # backstop at ten times the budget.
+    old = old_prof = None
     try:
         try:
             old = signal.signal(signal.SIGALRM, on_alarm)
-            signal.setitimer(signal.ITIMER_REAL, wall_timeout)
+            signal.setitimer(signal.ITIMER_REAL, wall_timeout * 10)
+            old_prof = signal.signal(signal.SIGPROF, on_alarm)
+            signal.setitimer(signal.ITIMER_PROF, wall_timeout)
         except ValueError:
             old = None
         try:
@@ -154,8 +160,11 @@ def run(coro_fn, *args, start: float = 1000.0, patch_clock: bool = True, wall_ti
     finally:
         try:
             signal.setitimer(signal.ITIMER_REAL, 0)
+            signal.setitimer(signal.ITIMER_PROF, 0)
             if old is not None:
                 signal.signal(signal.SIGALRM, old)
+            if old_prof is not None:
+                signal.signal(signal.SIGPROF, old_prof)
         except ValueError:
             pass
         try:
